@@ -510,14 +510,7 @@ def _prim_tabulate(ctx) -> None:
     import datetime as _dt
     from ..rules import minieval
     m = pmod("_helpers")
-    consts = {}
-    for st in m.tree.body:
-        if isinstance(st, ast.ImportFrom) and st.module == "pendulum.constants":
-            for a_ in st.names:
-                try:
-                    consts[a_.asname or a_.name] = core.const("constants", a_.name)
-                except Exception:       # noqa: BLE001
-                    pass
+    consts = minieval.module_consts(m)
     funcs = {st.name: st for st in m.top() if isinstance(st, ast.FunctionDef)}
     import math
     glob = {**funcs, "$globals": {**consts, "math": minieval.Stub(floor=math.floor), "ValueError": ValueError}}
